@@ -6,8 +6,8 @@ model of the repaired extractor (Proofs/ConfineFacts.v: C09_extract_confined, C0
 Correspondence (what ties that model to the code):
 (a) names: every EntryName constructor and the FHED parser against Model/Name.v (harness `codec`, gen prop C09).
 (b) crafted archives (harness `craft`: public API for hostile link targets, hand-assembled chunks for hostile
-    names) extracted by the real `pna` into <sandbox>/S/out with and without --overwrite (and --keep-permission,
-    and through `experimental stdio -x`); <sandbox>/S holds canaries and an `elsewhere` directory outside `out`,
+    names, user.* extended attributes on entries of every kind) extracted by the real `pna` into <sandbox>/S/out with
+    and without --overwrite (and --keep-permission, --keep-xattr, and through `experimental stdio -x`); <sandbox>/S holds canaries and an `elsewhere` directory outside `out`,
     `out` optionally holds pre-existing files, directories and symbolic links to the outside, and S is snapshotted
     before and after.  Oracle (implementation alone): nothing outside `out` appears, changes
     or shares an inode with something inside, and `out` is still a directory.  Model (Model/ExtractRun.v op
@@ -19,7 +19,7 @@ from vlib import cli, core
 META = {
     "level": "proof",
     "technique": "Coq theorems on a Gallina model of name sanitisation and of extract_entry over an abstract file system with symbolic-link resolution and hard-link aliasing; model tied to the code by differential execution (names: every constructor; extraction: crafted hostile archives through the real binary in a snapshotted sandbox)",
-    "level_text": "Proved in Coq (closed): every entry name consists of Normal components only (no root, `.`, `..`, empty) for every input string, and joined to the output directory it stays lexically inside; for EVERY archive (file, directory, symbolic-link entries with any target, hard-link entries with any stored source, in any order, with or without --overwrite and the keep-permission / keep-timestamp / keep-xattr options) and every initial file system in which the output directory is not reached through a symbolic link, is tree-shaped below, shares no inode with the outside and whose inode allocator is fresh, the model of the repaired extract_entry changes no observation (kind, inode, content, mode, times, xattrs, link target) of any path outside the output directory, also when the output directory already contains symbolic links to anywhere; after the extraction no inode has a name inside and a name outside (hard links stay inside), the source handed to link(2) and every destination that passes the ancestor check resolve to their literal paths, the premises hold again afterwards and the output directory survives; each of the four premises is shown necessary by a witness, and they are decidable; the unrepaired code escapes in the same model with the two recorded witnesses and the repaired code refuses them. The model is tied to the code by differential runs: its predicted exit status and exact set of changed paths agree with the real binary on crafted archives with every entry kind, hostile names and targets, pre-existing links in the output directory (300 / 8 000 extractions), and the implementation-side oracle finds nothing outside the output directory created, modified, removed or hard-linked.",
+    "level_text": "Proved in Coq (closed): every entry name consists of Normal components only (no root, `.`, `..`, empty) for every input string, and joined to the output directory it stays lexically inside; for EVERY archive (file, directory, symbolic-link entries with any target, hard-link entries with any stored source, in any order, with or without --overwrite and the keep-permission / keep-timestamp / keep-xattr options) and every initial file system in which the output directory is not reached through a symbolic link, is tree-shaped below, shares no inode with the outside and whose inode allocator is fresh, the model of the repaired extract_entry changes no observation (kind, inode, content, mode, times, xattrs, link target) of any path outside the output directory, also when the output directory already contains symbolic links to anywhere; neither chmod nor the extended attributes (put on the extracted object itself, for entries of every kind) go through a link at the destination; after the extraction no inode has a name inside and a name outside (hard links stay inside), the source handed to link(2) and every destination that passes the ancestor check resolve to their literal paths, the premises hold again afterwards and the output directory survives; each of the four premises is shown necessary by a witness, and they are decidable; the unrepaired code escapes in the same model with the two recorded witnesses and the repaired code refuses them. The model is tied to the code by differential runs: its predicted exit status and exact set of changed paths agree with the real binary on crafted archives with every entry kind, hostile names and targets, pre-existing links in the output directory (300 / 8 000 extractions), and the implementation-side oracle finds nothing outside the output directory created, modified, removed or hard-linked.",
     "level_note": "Trusted: Coq kernel + vm_compute; extraction and the OCaml driver (sample re-evaluated in the kernel); harness craft/codec; the abstract file system is a model of the kernel's path resolution (symlink following, O_CREAT through dangling links, link(2) not following the last component), validated only through the cases run. Premises of the theorem that are a matter of the caller: the output directory is not itself a symbolic link and no file in it is already hard-linked to a file outside (both necessary: witnesses in Props/C09.v); tree shape and allocator freshness hold in every real file system. Ownership (chown takes the same path as chmod in the code), ACLs, and races with a concurrent attacker between the ancestor check and the call are outside the model.",
 }
 
@@ -114,7 +114,29 @@ CURATED = [
     ([("a", 2, "l", "../elsewhere", None), ("a", 2, "l/m", "victim", None), ("a", 3, "h", "l/victim", None)], 1, 1, [], False),
     ([("a", 2, "l", "../elsewhere/victim", None), ("a", 3, "sub/h", "../l", 0o777), ("a", 3, "sub/h2", "h", 0o777)], 3, 2, [], False),
     ([("a", 1, "prefl", "", 0o700), ("a", 0, "prefl/f", "x", None)], 3, 1, [3], False),
+    # --keep-xattr (flag 8): attributes go on the extracted object itself, never through a link (lsetxattr);
+    # a symbolic link cannot carry user.* attributes (the entry fails after the link is made)
+    ([("a", 2, "l", "../elsewhere/victim", None, [("user.k", "v")])], 8, 1, [], False),
+    ([("a", 2, "l", "../elsewhere/victim", 0o777, [("user.k", "v")])], 11, 2, [], False),
+    ([("a", 2, "l", "../elsewhere", None, [("user.k", "v")])], 9, 1, [], True),
+    ([("a", 0, "f", "data", None, [("user.k", "v")]), ("a", 1, "d", "", None, [("user.k", "v")]), ("a", 3, "h", "f", None, [("user.h", "w")])], 8, 1, [], False),
+    ([("a", 0, "f", "data", None, [("user.k", "v")]), ("a", 3, "h", "f", None, [("user.h", "w"), ("user.k", "v3")])], 9, 2, [], False),
+    ([("a", 0, "pre", "new", None, [("user.k", "v")]), ("a", 0, "prefl", "x", None, [("user.k", "v")])], 9, 1, [0, 3], False),
+    ([("a", 2, "l", "../elsewhere/victim", None), ("a", 3, "h", "l", None, [("user.k", "v")])], 8, 1, [], False),
+    ([("a", 0, "f", "data", None, [("user.k", "v")])], 0, 1, [], False),
 ]
+
+
+XATTRS = [None, None, None, [("user.k", "v")], [("user.k", "v2"), ("user.a", "")], [("user.z", "zz")]]
+
+
+def xa(e):
+    """optional sixth element of an entry: list of (name, value) extended attributes (api entries only)"""
+    return e[5] if len(e) > 5 and e[5] else []
+
+
+def xa_field(e):
+    return ";".join("%s=%s" % (hx(k), hx(v)) for k, v in xa(e))
 
 
 def gen_history(rnd):
@@ -129,8 +151,9 @@ def gen_history(rnd):
             name = rnd.choice(entries)[2] + "/" + rnd.choice(["x", "sub/y"])
         if entries and rnd.random() < 0.25 and kind in (2, 3):           # a link to an earlier entry
             data = rnd.choice(entries)[2]
-        entries.append((mode, kind, name, data, rnd.choice(PERMS)))
-    flags = rnd.choice([0, 0, 1, 1, 2, 3])
+        x = rnd.choice(XATTRS) if mode == "a" else None
+        entries.append((mode, kind, name, data, rnd.choice(PERMS), x))
+    flags = rnd.choice([0, 0, 1, 1, 2, 3]) | (8 if rnd.random() < 0.4 else 0)
     runs = rnd.choice([1, 1, 1, 2])
     pre = sorted(rnd.sample(range(len(PRE)), rnd.choice([0, 0, 1, 2, 3])))
     return entries, flags, runs, pre, rnd.random() < 0.2
@@ -138,17 +161,31 @@ def gen_history(rnd):
 
 def case_line(entries, flags, runs, pre):
     nodes = BASE + [n for i in pre for n in PRE[i]]
-    ents = ",".join("%s:%d:%s:%s:%s" % (m, k, hx(n), hx(d.replace("@S", S_ABS)), "-" if p is None else str(p))
-                    for (m, k, n, d, p) in entries)
+    ents = ",".join("%s:%d:%s:%s:%s:%s" % (e[0], e[1], hx(e[2]), hx(e[3].replace("@S", S_ABS)), "-" if e[4] is None else str(e[4]), xa_field(e))
+                    for e in entries)
     return "extract\t%d\t%d\t%s\t%s\t%s" % (flags, runs, hx(S_ABS + "/out"), ents, fs_field(nodes))
 
 
+def snapshot_x(root):
+    """cli.snapshot_meta plus, for regular files, the user.* extended attributes (read without following links)"""
+    snap = cli.snapshot_meta(root)
+    for k, t in snap.items():
+        if t[0] == "file":
+            p = os.path.join(root, k)
+            try:
+                xs = tuple(sorted((n, os.getxattr(p, n, follow_symlinks=False)) for n in os.listxattr(p, follow_symlinks=False) if n.startswith("user.")))
+            except OSError:
+                xs = ()
+            snap[k] = tuple(t) + (xs,)
+    return snap
+
+
 def observe(before, after):
-    """relative paths (to <sandbox>/S) whose observation changed: files by (content, mode, mtime, inode),
+    """relative paths (to <sandbox>/S) whose observation changed: files by (content, mode, mtime, inode, user xattrs),
     directories by mode, symbolic links by target"""
     def ob(t):
-        kind, size, mtime, ino, mode, h = t
-        return (kind, mode) if kind == "dir" else (kind, h) if kind == "symlink" else (kind, size, mtime, ino, mode, h)
+        kind, size, mtime, ino, mode, h = t[:6]
+        return (kind, mode) if kind == "dir" else (kind, h) if kind == "symlink" else (kind, size, mtime, ino, mode, h) + tuple(t[6:])
     return sorted(k for k in set(before) | set(after) if (k in before) != (k in after) or ob(before[k]) != ob(after[k]))
 
 
@@ -159,15 +196,16 @@ def run_history(sb, idx, entries, flags, runs, pre, stdio):
     os.makedirs(S)
     os.makedirs(os.path.join(root, "tmp"))
     build_fs(S, BASE + [n for i in pre for n in PRE[i]])
-    spec = "".join("\t".join(["api" if m == "a" else "raw", str(k), hx(n), hx(d.replace("@S", S)), "-" if p is None else str(p), "-"]) + "\n"
-                   for (m, k, n, d, p) in entries)
+    spec = "".join("\t".join(["api" if e[0] == "a" else "raw", str(e[1]), hx(e[2]), hx(e[3].replace("@S", S)), "-" if e[4] is None else str(e[4]), "-",
+                              xa_field(e) or "-"]) + "\n"
+                   for e in entries)
     with open(os.path.join(root, "spec.tsv"), "w") as f:
         f.write(spec)
     arch = os.path.join(root, "a.pna")
     subprocess.run([core.harness_bin("craft"), os.path.join(root, "spec.tsv"), arch], check=True, timeout=60)
-    before = cli.snapshot_meta(S)
+    before = snapshot_x(S)
     msgs, rcs = [], []
-    opts = (["--overwrite"] if flags & 1 else []) + (["--keep-permission"] if flags & 2 else [])
+    opts = (["--overwrite"] if flags & 1 else []) + (["--keep-permission"] if flags & 2 else []) + (["--keep-xattr"] if flags & 8 else [])
     for _ in range(runs):
         if stdio:
             with open(arch, "rb") as f:
@@ -179,7 +217,7 @@ def run_history(sb, idx, entries, flags, runs, pre, stdio):
         elif r["rc"] not in (0, 1):
             msgs.append("extraction ends with status %s (101 = panic): %s" % (r["rc"], r["err"][-200:].decode("utf-8", "replace")))
         rcs.append("0" if r["rc"] == 0 else "1")
-    after = cli.snapshot_meta(S)
+    after = snapshot_x(S)
     changed = observe(before, after)
     # ---- the property itself, on the implementation alone
     for k in changed:
@@ -232,7 +270,7 @@ def run(tier, seed, replay=None):
     c.rule = ("names: every string over {a . / \\ space e-acute NUL} up to length 5 (6 in thorough) and generated path-like strings "
               "through 5 EntryName constructors + EntryReference; extraction: %d curated histories (every escape found on the "
               "unrepaired code) + seeded archives of 1-5 entries over hostile names x kinds x link targets x {--overwrite, "
-              "--keep-permission} x {1, 2 runs} x pre-existing files, directories and links (to outside directories, files, nothing) in the output directory, "
+              "--keep-permission, --keep-xattr with user.* attributes on entries of every kind} x {1, 2 runs} x pre-existing files, directories and links (to outside directories, files, nothing) in the output directory, "
               "also two levels beneath them and as hard-link sources x {extract, stdio -x}; a case is "
               "non-trivial if distinct" % len(CURATED))
     c.assumptions = ["the output directory exists, is not itself reached through a symbolic link, and no file in it is hard-linked to a file outside it before extraction",
